@@ -218,6 +218,56 @@ def case(spec):
                       '0' + label)
             res.sigs.append('opus|%d|%s|%d|%d' % (nv, label, overshoot, rem))
             res.sample = {'kind': kind, 'volume': label, 'overshoot': overshoot, 'entry': target.brief()}
+        elif kind == 'flux':
+            from .. import flux as fx
+            enc = rng.choice(['fm', 'mfm'])
+            spt = 10 if enc == 'fm' else rng.choice([16, 18])
+            tracks = rng.choice([2, 3, 5])
+            nsec = tracks * spt
+            side = rng.randrange(2)
+            fk = rng.choice(['hfe1', 'hfe3'] + (['mfm'] if enc == 'mfm' else []))
+            surfs = []
+            target = None
+            for sd in range(2):
+                ents = []
+                if sd == side:
+                    e = edge_entry(rng, 'EDGE', nsec, overshoot, rem)
+                    fill_body(e, rng, nsec - e.start)
+                    target = e
+                    ents.append(e)
+                if not (sd == side and target.start <= 4):
+                    ents.append(dm.Entry('$', 'LOW', False, 0, 0, 300, 2, rng.randbytes(300)))
+                cat = dm.Cat(b'X%d' % sd, 0, 1, 0, nsec, dm.catalogue_order(ents))
+                surfs.append(dm.Surface('acorn', tracks, spt, [dm.Volume(None, 0, nsec, 0, cat)], rng.getrandbits(16), sd))
+            images = [sf.image() for sf in surfs]
+            params = fx.FluxParams(rng, enc, spt)
+            per = [fx.encode_surface(rng, images[sd], tracks, spt, enc, sd, params) for sd in range(2)]
+            if fk == 'mfm':
+                data = fx.hxcmfm_file({(t, sd): fx.pack_msb_first(per[sd][t].c) for sd in range(2) for t in range(tracks)}, tracks, 2)
+                path = os.path.join(tmp, 'x.mfm')
+            else:
+                packed = []
+                for sd in range(2):
+                    lst = []
+                    for tr in per[sd]:
+                        raw_ = fx.pack_lsb_first(fx.fm_to_hfe_cells(tr.c) if enc == 'fm' else tr.c)
+                        if fk == 'hfe3':
+                            raw_, _ = fx.insert_v3_opcodes(rng, raw_, n=rng.randrange(0, 4))
+                        lst.append(raw_)
+                    packed.append(lst)
+                data = fx.hfe_file(packed[0], packed[1], 2 if enc == 'fm' else 0, 1 if fk == 'hfe1' else 3)
+                path = os.path.join(tmp, 'x.hfe')
+            write_file(path, data)
+            files = {os.path.basename(path): data}
+            # everything on the other side is "outside"
+            both = images[side] + images[1 - side]
+            outside = outside_blocks(both, [(0, nsec)])
+            drive = [0, 2][side]
+            run_entry(res, rng, dfsbin, path, [], ':%d.$.EDGE' % drive, target, fits, target.body, outside, files,
+                      'flux-side', tmp, str(drive))
+            res.seen('flux_kinds', fk + '/' + enc)
+            res.sigs.append('flux|%s|%s|%d|%d|%d|%d' % (fk, enc, tracks, side, overshoot, rem))
+            res.sample = {'kind': kind, 'flux': fk, 'overshoot': overshoot, 'entry': target.brief(), 'drive': drive}
         elif kind in ('inter', 'single', 'mmb'):
             spt = 10 if kind == 'mmb' else rng.choice([10, 18])
             if kind == 'mmb':
@@ -290,12 +340,13 @@ def fingerprint_tail(rng, n):
 def main(tier, seed, scale=1.0):
     BIN['san'] = build.ensure('san')
     q = tier == 'quick'
-    counts = {'opus': 96 if q else 1800, 'inter': 36 if q else 600, 'single': 24 if q else 400, 'mmb': 12 if q else 120}
+    counts = {'opus': 96 if q else 1800, 'inter': 36 if q else 600, 'single': 24 if q else 400, 'mmb': 12 if q else 120,
+              'flux': 36 if q else 600}
     specs = []
     for k, n in counts.items():
         specs += [(seed, k, i, tier) for i in range(max(6, int(n * scale)))]
     rule = ('one case = one catalogue entry ending boundary-2 .. boundary+3 sectors (last-sector remainders 1/255/256/'
-            'random) at the end of an Opus volume A-H, a side of a dsd/ddd, a one-sided image (with and without '
+            'random) at the end of an Opus volume A-H, a side of a dsd/ddd or of a two-sided HFE/HxC flux image, a one-sided image (with and without '
             'trailing data) or an MMB slot whose successor is present; type --binary, dump and extract-files are '
             'judged: no output block may equal a container sector outside the region, overruns must fail with a '
             'diagnostic, fitting entries must be delivered; V/S hook records must respect the limits; distinct = '
@@ -303,7 +354,7 @@ def main(tier, seed, scale=1.0):
     def post(agg, sigs):
         # vacuity guard: the boundary must actually have been hit
         if agg.cov.get('hook_V_requests_beyond_limit', 0) < 4 or \
-                len(agg.cov.get('contexts_with_refused_volume_reads', ())) < 4:
+                len(agg.cov.get('contexts_with_refused_volume_reads', ())) < 5:
             agg.inconclusive.append('too few reads beyond a volume limit were observed')
             agg.events = 0
         return []
